@@ -325,7 +325,7 @@ func (e *Exec) typeInvOf(t types.Type, v Val, h *Heap) (string, *TypeInv) {
 	if ti == nil {
 		return "", nil
 	}
-	sc := &Scope{e: e, c: c, cur: h, old: h, params: map[string]Val{ti.Var: v}, names: map[string]Val{}, pkg: pkgOfType(t, e.fn.Pkg.Pkg), tracks: map[string]*trackInfo{}}
+	sc := &Scope{e: e, c: c, cur: h, old: h, params: map[string]Val{ti.Var: v}, names: map[string]Val{}, pkg: pkgOfType(t, pkgOf(e.fn)), tracks: map[string]*trackInfo{}}
 	return e.evalBool(sc, ti.C), ti
 }
 
